@@ -15,6 +15,9 @@ INT_ALPHABET = (0, 1, 2 ** 7, 2 ** 8 - 1, 2 ** 8, 2 ** 16 - 1, 2 ** 16, 2 ** 24 
                 2 ** 64 - 1)
 
 
+AWARE_FOR_NAIVE = False      # see leaf_variants (datetime)
+
+
 def _not_constructible():
     from cryptodatahub.common.exception import InvalidValue
     from cryptoparser.common.exception import InvalidDataLength, InvalidType
@@ -93,6 +96,14 @@ def leaf_variants(v, wide=False, hint=None, text=False):
             out.append((tag, x))
         if aware:
             out.append(('dt:otherzone', v.astimezone(datetime.timezone(datetime.timedelta(hours=1)))))
+        elif AWARE_FOR_NAIVE:
+            # the same instant as the naive value (which the library reads as UTC) expressed as aware datetimes: the
+            # wire form must not change.  Only layout checks switch this on: for round-trip equality an aware value
+            # in a field whose parser yields naive UTC is outside the field's domain.
+            au = v.replace(tzinfo=utc)
+            out.append(('dt:aware-utc', au))
+            out.append(('dt:aware+0530', au.astimezone(datetime.timezone(datetime.timedelta(hours=5, minutes=30)))))
+            out.append(('dt:aware-0930', au.astimezone(datetime.timezone(-datetime.timedelta(hours=9, minutes=30)))))
         if v.microsecond % 1000 == 0 and v.microsecond:
             out.append(('dt:+1ms', v + datetime.timedelta(milliseconds=1)))
         return out
